@@ -292,6 +292,26 @@ def r_drain_protocol(F, V):
         for i, k, s in db.stmts():
             if s["k"] == "assign" and s["p"].get("t") == INNER and any(e["k"] == "deref" for e in s["p"].get("proj", [])):
                 wb.append(i)
+
+        def _is_wb_call(t_):
+            cp_ = callee_path(t_) or ""
+            return ("copy_from_nonoverlapping" in cp_ or cp_ in ("core::ptr::write", "core::ptr::copy_nonoverlapping", "core::ptr::mut_ptr::*mut T::write")) \
+                and any(s_ == INNER for s_ in t_["f"].get("substs", []))
+        # the write-back (or any of the three steps) may sit in a private helper of RawDrain called from drop: a call to a
+        # crate function that performs it unconditionally counts at the position of the call
+        for i, t in db.calls():
+            cpx = callee_path(t) or ""
+            hb = F.bodies.get(cpx)
+            if hb is None or not cpx.startswith("raw::RawDrain::"):
+                continue
+            for j, t2 in hb.calls():
+                if _is_wb_call(t2) and not hb.control_deps_trans(j, "ret"):
+                    wb.append(i)
+                c2 = callee_path(t2) or ""
+                if c2.endswith("::drop_elements") and not hb.control_deps_trans(j, "ret"):
+                    de.append(i)
+                if c2.endswith("::clear_no_drop") and not hb.control_deps_trans(j, "ret"):
+                    cl.append(i)
         key = "raw::<RawDrain as Drop>::drop|order"
         if not de or not cl or not wb:
             R.violation(key, db, "RawDrain::drop must destroy the remainder (drop_elements), reset the table (clear_no_drop) and write it back to the original; found drop_elements=%s clear_no_drop=%s write-back=%s" % (bool(de), bool(cl), bool(wb)))
